@@ -276,19 +276,16 @@ theorem multisession_mandatory (cfg : Cfg) (t : OpenMsg) (h : cfg.multiSession =
   rw [negotiate_multisession, show (ourOpen cfg).caps = ourCaps cfg from rfl, (ourCaps_isMs cfg).1, (ourCaps_isMs cfg).2, h, hn]
   simp
 
-/-- **Multisession on both sides**: agreed iff the peer's MP families, in the order the dict holds
-    them, are ours; 2/8 otherwise; a peer without any MP capability makes `_negotiate` raise
-    (`KeyError`, reported to C03). -/
+/-- **Multisession on both sides**: agreed iff the peer's MP capability, in the order the dict holds its
+    families, is ours; 2/8 otherwise — also when the peer sent no MP capability at all (until the repair of F97
+    that case raised a `KeyError` out of `_negotiate` and the session was reset without a NOTIFICATION). -/
 theorem multisession_both (cfg : Cfg) (t : OpenMsg) (h : cfg.multiSession = true)
     (v : Bytes) (ht : Cap.multisession false v ∈ t.caps) :
     (negotiate (ourOpen cfg) t).multisession =
-      match (capSet t.caps).mp with
-      | none => .crash
-      | some rm => if (capSet (ourOpen cfg).caps).mp.getD [] ≠ rm then .err 2 8 else .yes := by
+      if some ((capSet (ourOpen cfg).caps).mp.getD []) ≠ (capSet t.caps).mp then .err 2 8 else .yes := by
   have hn : t.caps.any (isMs false) = true := (any_isMs_iff _ _).2 ⟨v, ht⟩
   rw [negotiate_multisession, show (ourOpen cfg).caps = ourCaps cfg from rfl, (ourCaps_isMs cfg).1, (ourCaps_isMs cfg).2, h, hn]
   simp
-  rfl
 
 /-- **A repeated graceful-restart capability: the last one replaces the earlier ones**; restart
     flags are the top 4 bits, the time the low 12, and only the forwarding bit (0x80) of each
